@@ -83,6 +83,26 @@ def run(ctx):
                 S.scale(1 / t[1], 1 / t[2])
         ctx.check(S == S0, "inverse transformation does not restore an equal shape", desc)
         ctx.check(drv.ask("canon " + core.eshape(S)) == drv.ask("canon " + shapes.enc_desc(d)), "inverse transformation does not restore the region", desc)
+    # ---- the offset is one of the shape's own points (aliasing): the map is still the translation by the VALUE the point had
+    for kind in shapes.DEFINED:
+        for pick in (0, -1):
+            for level in ("shape", "curve"):
+                S, d = shapes.make(rng, kind, rng.randint(1, 3), rng.randint(1, 3), drv)
+                J = S.jordans[pick]
+                v = J.vertices[pick]
+                off = (F(v[0]), F(v[1]))
+                ctx.case("aliased-offset", (kind, pick, level, repr(d)))
+                if level == "shape":
+                    S.move(v)
+                    d2 = apply_desc(d, [("move", off[0], off[1])])
+                    ctx.check(drv.ask("canon " + core.eshape(S)) == drv.ask("canon " + shapes.enc_desc(d2)),
+                              "move by one of the shape's own vertices (same object) is not the translation by that vector", {"kind": kind, "shape": core.jsonable(d), "offset": off},
+                              drv.ask("canon " + shapes.enc_desc(d2)), drv.ask("canon " + core.eshape(S)))
+                else:
+                    exp = [(F(w[0]) + off[0], F(w[1]) + off[1]) for w in J.vertices]
+                    J.move(v)
+                    got = [(F(w[0]), F(w[1])) for w in J.vertices]
+                    ctx.check(got == exp, "curve.move by one of its own vertices (same object) is not the translation by that vector", {"kind": kind, "shape": core.jsonable(d), "offset": off}, exp, got)
     # ---- rotations (numerical)
     m = 25 if ctx.quick else 200
     for it in range(m):
